@@ -35,6 +35,10 @@ type pmPlan struct {
 	Losses [][2]int `json:"losses"` // (position, run length): never arrive
 	Lates  [][2]int `json:"lates"`  // (position, back): after position, a copy of packet position-back arrives
 	Nacks  [][2]int `json:"nacks"`  // (position, back): after position, the receiver asks for the number under which position-back went out
+	// DropEvery: every DropEvery-th position is withheld, throughout (a
+	// receiver on a lower temporal layer for an hour: the count of withheld
+	// packets passes 65536, the size of the number space)
+	DropEvery int `json:"dropevery,omitempty"`
 }
 
 func genPMPlan(tp *simrt.Tape, seed uint64, tier string) any {
@@ -52,6 +56,23 @@ func genPMPlan(tp *simrt.Tape, seed uint64, tier string) any {
 	p.N = []int{300, 3000, 20000, 40000, 70000, 140000}[tp.Weighted(4, 3, 2, 2, 3, 1)]
 	if tier != "thorough" && p.N > 70000 {
 		p.N = 70000
+	}
+	if tp.Chance(1, 12) {
+		// a long run on a lower layer: late copies and retransmission
+		// requests just after the 65536th packet has been withheld
+		p.DropEvery = 2
+		wrap := 65536 * p.DropEvery
+		p.N = wrap + 200 + tp.Draw(2000)
+		for i := 0; i < 6; i++ {
+			pos := wrap + 1 + 2*tp.Draw(40)
+			back := []int{2, 4, 10, 100, 1000, 8000}[tp.Draw(6)]
+			if tp.Chance(1, 2) {
+				p.Lates = append(p.Lates, [2]int{pos, back})
+			} else {
+				p.Nacks = append(p.Nacks, [2]int{pos, back})
+			}
+		}
+		return p
 	}
 	// where packets are withheld: early only, spread out, or steadily
 	nd := 1 + tp.Draw(6)
@@ -155,6 +176,11 @@ func runPM(c *Ctx, plan any) {
 	for _, d := range p.Drops {
 		for k := 0; k < d[1]; k++ {
 			drop[d[0]+k] = true
+		}
+	}
+	if p.DropEvery > 1 {
+		for pos := p.DropEvery; pos < p.N; pos += p.DropEvery {
+			drop[pos] = true
 		}
 	}
 	lost := map[int]bool{}
@@ -291,6 +317,13 @@ func runPMLoop(c *Ctx, p *pmPlan, lost, drop map[int]bool, lates, nacks map[int]
 			if !rok {
 				c.Count("probe.reverse_refused", 1)
 				continue // answering with nothing is allowed
+			}
+			if src == seq(q) {
+				// the retransmission passes through the map like any packet
+				if mok, out2, _ := m.Map(src, 0); mok && out2 != out {
+					c.Violation("C03.retransmission-renumbered", "a retransmission request for outgoing seqno %d (source seqno %d, position %d; %d packets presented, %d withheld) is answered with the right packet under another number, %d, which the receiver takes for another packet", out, src, q, (*hip)+1, len(*withheldp), out2)
+					return
+				}
 			}
 			if src != seq(q) {
 				c.Violation("C03.reverse-wrong-packet", "a retransmission request for outgoing seqno %d (source seqno %d, position %d, %d packets ago; %d packets presented, %d withheld, the last at position %d) is translated to source seqno %d: another packet would be retransmitted", out, seq(q), q, (*hip)-q, (*hip)+1, len(*withheldp), lastOf(*withheldp), src)
